@@ -366,7 +366,13 @@ class Executor(object):
             return
         name = '%s.%s' % (self.contract.name if self.contract else self.func.qualname, label)
         ln = getattr(node, 'lineno', 0) if node is not None else 0
-        ob = Obligation(name, kind, list(st.pc), goal, self.func.qualname if self.func else '?', ln, self.path_no, note)
+        pc = list(st.pc)
+        if getattr(node, 'local', False) and label.endswith('.keep') and getattr(self, '_loop_pc_mark', None) is not None and self.entry is not None:
+            # local=True on an invariant: its preservation is proved from the entry facts and what is known since the loop head only
+            # (invariants assumed at the iteration start, the path through the body) -- fewer premises, hence sound; keeps facts about
+            # what happened before the loop out of the query
+            pc = list(st.pc[:len(self.entry.pc)]) + list(st.pc[self._loop_pc_mark:])
+        ob = Obligation(name, kind, pc, goal, self.func.qualname if self.func else '?', ln, self.path_no, note)
         ob.hide = tuple('sp_' + h for h in getattr(node, 'hide', ()) or ())
         self.obligations.append(ob)
 
@@ -774,7 +780,10 @@ class Executor(object):
 
     # ------------------------------------------------------------ statements
     def exec_block(self, stmts, st):
-        top = (self.func is not None and stmts is self.func.node.body and self.inline_depth == 0 and self.contract is not None and getattr(self.contract, 'cuts', None))
+        top = (self.func is not None and self.inline_depth == 0 and self.contract is not None and getattr(self.contract, 'cuts', None)
+               and (stmts is self.func.node.body
+                    # ... or the body of a try statement that is itself a top-level statement (entry points wrap everything in try/finally)
+                    or any(isinstance(t, ast.Try) and stmts is t.body for t in self.func.node.body)))
         for s in stmts:
             if top:
                 self._maybe_cut(s, st)
@@ -1158,6 +1167,7 @@ class Executor(object):
             v = SV(pt, fresh('lv_' + n, sort_of(pt)))
             st.locals[n] = v
             self.assume_wf(st, v)
+        self._loop_pc_mark = len(st.pc)
         havoced = self._havoc_heap_for_loop(st, s)
         if auto_frame:
             for name in havoced:
@@ -2037,6 +2047,8 @@ class Executor(object):
             if g is None:
                 if '%s.%s' % (base.py, n.attr) in self.reg.classes:
                     return SV(PT('class'), py='%s.%s' % (base.py, n.attr))      # a class of a dependency declared in the contracts
+                if base.py == 'os' and n.attr == 'path':
+                    return SV(PT('module'), py='os.path')      # a submodule: its functions are known by assumed contracts only
                 return SV(PT('func'), py=('modfunc', base.py, n.attr))
             return g
         if k == 'opt' and base.pt.args[0].kind == 'obj':
